@@ -21,7 +21,8 @@ def run(tier, seed):
             p["cls"] = "closed"
         else:           # deaths + replacement births only
             p = g.program({"kind_pool": ["transition", "death", "death", "replacement_birth", "replacement_birth"],
-                           "never_adjust": ["f0", "f1", "f2", "f3", "f4"], "p_udeath": 0.5})
+                           "never_adjust": ["f0", "f1", "f2", "f3", "f4", "pbirth"], "p_udeath": 0.5,
+                           "post_birth": 0.6, "post_birth_kinds": ["replacement_birth"], "nstrat": g.rng.choice([1, 2, 2])})
             p["cls"] = "replacement"
         progs.append(p)
     out = []
